@@ -61,6 +61,24 @@ func profileByName(name string) Profile {
 		p.Invokes = [2]int{4, 10}
 	case "viz":
 		p.PVisualize, p.PGroupRes, p.PGroupPar = 0.5, 0.3, 0.3
+		p.Names = []string{"", "n1", "a<b&c"}
+		p.Groups = []string{"g1", "g<3>"}
+		p.PInvalid, p.PDup = 0.15, 0.1
+	case "pviz":
+		p.PVisualize, p.PFault, p.PDecorate, p.MinFns, p.MaxFns, p.MaxScopes = 0.6, 0.25, 0.05, 2, 9, 3
+		p.Names = []string{"", "n1", "a<b"}
+		p.Groups = []string{"g1", "g<2>"}
+		p.PGap, p.PMidInvoke, p.PDefer = 0.15, 0.3, 0.1
+		p.Invokes = [2]int{2, 6}
+	case "pcallbacks":
+		p.PCallback, p.PFault, p.InvokeFaults, p.PDecorate, p.MinFns, p.MaxFns = 0.7, 0.3, true, 0.3, 2, 9
+		p.Names = []string{"", "n1", "a<b"}
+		p.Groups = []string{"g1", "g<2>"}
+		p.Invokes = [2]int{3, 8}
+	case "pinfo":
+		p.PInfo, p.PDecorate, p.MinFns, p.MaxFns = 0.9, 0.3, 2, 9
+		p.Names = []string{"", "n1", "a<b"}
+		p.Groups = []string{"g1", "g<2>"}
 	}
 	return p
 }
@@ -97,9 +115,11 @@ func jobsFor(prop, tier string) []JobSpec {
 	case "C13":
 		return []JobSpec{{"hist:faults", n(25000, 1200000)}, {"hist:rejects", n(25000, 1200000)}}
 	case "C18":
-		return []JobSpec{{"hist:info", n(50000, 2500000)}}
+		return []JobSpec{{"hist:info", n(40000, 2000000)}, {"pool:pinfo", n(20000, 1000000)}}
+	case "C19":
+		return []JobSpec{{"pool:pviz", n(40000, 2000000)}, {"hist:viz", n(20000, 1000000)}}
 	case "C20":
-		return []JobSpec{{"hist:callbacks", n(50000, 2500000)}}
+		return []JobSpec{{"hist:callbacks", n(35000, 1800000)}, {"pool:pcallbacks", n(25000, 1200000)}}
 	}
 	return extraJobs(prop, tier)
 }
